@@ -164,6 +164,12 @@ func readFullLine(reader *bufio.Reader) (string, error) {
 		l, more, err := reader.ReadLine()
 
 		if err != nil {
+			// a last line that fills the read buffer exactly and has no
+			// line end is complete although more was expected
+			if err == io.EOF && line != nil {
+				return string(line), nil
+			}
+
 			return "", err
 		}
 
